@@ -4,7 +4,9 @@
 (* cover every operator kind (sharded selectors, range functions, both     *)
 (* aggregation kinds, both binary kinds incl. sides of unequal length,     *)
 (* functions with scalar arguments, step-invariant, unary, merged selects, *)
-(* distributed/remote) x instant / two-batch range windows x core counts.  *)
+(* distributed/remote) x instant / two-batch / four-batch range windows    *)
+(* (a producer can then be two batches ahead of its consumer) x core       *)
+(* counts.                                                                 *)
 (* The faults themselves (error / panic / cancel / block at the k-th       *)
 (* storage callback for every k the fault-free run reaches) are enumerated *)
 (* by the replayer, which knows k's range only after the fault-free run.   *)
@@ -13,16 +15,17 @@ EXTENDS ScnLib
 CONSTANTS Tier, Seed, Mod, TickMs
 Q == Tier = "quick"
 
-Data == << Series(<< <<"__name__","m">>, <<"a","x">>, <<"b","1">> >>, [i \in 1..14 |-> Smp(i - 1, "f", i)]),
-           Series(<< <<"__name__","m">>, <<"a","x">>, <<"b","2">> >>, [i \in 1..14 |-> Smp(i - 1, IF i = 9 THEN "s" ELSE "f", 20 + i)]),
-           Series(<< <<"__name__","m">>, <<"a","y">>, <<"b","1">> >>, [i \in 1..7 |-> Smp(2 * i - 1, "f", 50 - i)]),
-           Series(<< <<"__name__","m">>, <<"Z","up">>, <<"a","y">>, <<"b","2">> >>, [i \in 1..14 |-> Smp(i - 1, "f", 3)]),
-           Series(<< <<"__name__","n">>, <<"a","x">> >>, [i \in 1..14 |-> Smp(i - 1, "f", 2)]),
+Data == << Series(<< <<"__name__","m">>, <<"a","x">>, <<"b","1">> >>, [i \in 1..40 |-> Smp(i - 1, "f", i)]),
+           Series(<< <<"__name__","m">>, <<"a","x">>, <<"b","2">> >>, [i \in 1..40 |-> Smp(i - 1, IF i = 9 THEN "s" ELSE "f", 20 + i)]),
+           Series(<< <<"__name__","m">>, <<"a","y">>, <<"b","1">> >>, [i \in 1..20 |-> Smp(2 * i - 1, "f", 50 - i)]),
+           Series(<< <<"__name__","m">>, <<"Z","up">>, <<"a","y">>, <<"b","2">> >>, [i \in 1..40 |-> Smp(i - 1, "f", 3)]),
+           Series(<< <<"__name__","n">>, <<"a","x">> >>, [i \in 1..40 |-> Smp(i - 1, "f", 2)]),
            Series(<< <<"__name__","n">>, <<"a","y">> >>, [i \in 1..6 |-> Smp(i - 1, "f", 4)]),
-           Series(<< <<"__name__","p">> >>, [i \in 1..14 |-> Smp(i - 1, "f", (i % 2) + 1)]) >>
+           Series(<< <<"__name__","p">> >>, [i \in 1..40 |-> Smp(i - 1, "f", (i % 2) + 1)]) >>
 M == <<Sel(<<Metric("m")>>)>>
 N2 == <<Sel(<<Metric("n")>>)>>
 PS == <<Sel(<<Metric("p")>>), Fn("scalar", <<1>>)>>
+LOT == <<RFn("last_over_time", <<Metric("m")>>, 2, 0, "none", 0)>>
 Plans == <<
   [p |-> M, dist |-> TRUE],
   [p |-> <<RFn("rate", <<Metric("m")>>, 3, 0, "none", 0)>>, dist |-> TRUE],
@@ -43,13 +46,21 @@ Plans == <<
   \* selects that are loaded lazily, by a pull goroutine during Next() rather than by Series()
   [p |-> Join(M, Over(Over(N2, LAMBDA c : Agg("sum", TRUE, <<>>, <<c>>)), LAMBDA c : Fn("scalar", <<c>>)), LAMBDA a, b : Bin("+", a, b)), dist |-> FALSE],
   [p |-> Over(Over(N2, LAMBDA c : Agg("sum", TRUE, <<>>, <<c>>)), LAMBDA c : Fn("scalar", <<c>>)), dist |-> FALSE],
-  [p |-> Join(PS, M, LAMBDA a, b : Agg("topk", TRUE, <<>>, <<a, b>>)), dist |-> FALSE] >>
+  [p |-> Join(PS, M, LAMBDA a, b : Agg("topk", TRUE, <<>>, <<a, b>>)), dist |-> FALSE],
+  \* every name-dropping operator directly over the one range function that keeps the metric name (and the storage's labels)
+  [p |-> Join(LOT, <<Num(2)>>, LAMBDA a, b : Bin("*", a, b)), dist |-> FALSE],
+  [p |-> Join(LOT, <<Num(3)>>, LAMBDA a, b : BinM(">", a, b, TRUE, "1:1", FALSE, <<>>, <<>>)), dist |-> FALSE],
+  [p |-> Over(LOT, LAMBDA c : NegN(c)), dist |-> FALSE],
+  [p |-> Over(LOT, LAMBDA c : Fn("abs", <<c>>)), dist |-> FALSE],
+  [p |-> Over(LOT, LAMBDA c : Agg("sum", FALSE, <<"b">>, <<c>>)), dist |-> FALSE],
+  [p |-> Join(LOT, <<Num(1)>>, LAMBDA a, b : Fn("clamp_min", <<a, b>>)), dist |-> FALSE],
+  [p |-> Join(LOT, N2, LAMBDA a, b : BinM("+", a, b, FALSE, "N:1", TRUE, <<"a">>, <<>>)), dist |-> FALSE] >>
 
 VARIABLE g
-Init == g \in [p : 1..Len(Plans), win : {"instant", "range"}, procs : IF Q THEN {2, 4} ELSE {2, 4, 8}, dist : {0, 1}]
+Init == g \in [p : 1..Len(Plans), win : {"instant", "range", "long"}, procs : IF Q THEN {2, 4} ELSE {2, 4, 8}, dist : {0, 1}]
 Next == UNCHANGED g
 Valid(x) == x.dist = 0 \/ Plans[x.p].dist
-ScnOf(x) == Scn("fault", "C15", TickMs, Data, Plans[x.p].p, 2, IF x.win = "instant" THEN 2 ELSE 13, IF x.win = "instant" THEN 0 ELSE 1, 2, 0)
+ScnOf(x) == Scn("fault", "C15", TickMs, Data, Plans[x.p].p, 2, IF x.win = "instant" THEN 2 ELSE IF x.win = "range" THEN 13 ELSE 36, IF x.win = "instant" THEN 0 ELSE 1, 2, 0)
             @@ [cfg |-> [procs |-> x.procs, dist |-> x.dist]]
-EmitFault == IF Valid(g) /\ (g.p * 5 + g.procs + g.dist * 3 + (IF g.win = "instant" THEN 0 ELSE 1)) % Mod = Seed % Mod THEN Emit(ScnOf(g)) ELSE TRUE
+EmitFault == IF Valid(g) /\ (g.p * 5 + g.procs + g.dist * 3 + (IF g.win = "instant" THEN 0 ELSE IF g.win = "range" THEN 1 ELSE 2)) % Mod = Seed % Mod THEN Emit(ScnOf(g)) ELSE TRUE
 =============================================================================
